@@ -173,7 +173,9 @@ impl PatternFormatter {
 
   /// Applies left or right padding to the given content.
   fn apply_padding(&self, buf: &mut String, content: &str, padding: i32) {
-    let width = padding.abs() as usize;
+    // `unsigned_abs` cannot overflow on `i32::MIN`, and the formatting machinery only accepts
+    // widths up to `u16::MAX` (larger ones panic at run time), so the width is clamped to that.
+    let width = (padding.unsigned_abs() as usize).min(u16::MAX as usize);
     if content.len() >= width {
       buf.push_str(content);
       return;
